@@ -72,3 +72,16 @@ Proof. vm_compute. split; reflexivity. Qed.
 Print Assumptions C04_params_ok.
 Print Assumptions C04_refinement_shipped.
 Print Assumptions C04_no_retention_shipped.
+
+(* ---- translator tie: Deque.Len and positiveMod, translated from the Go source on every run
+        (Generated/Funcs.v), are the definitions the model uses ---- *)
+From Juniper Require Import Generated.Funcs Translated.FuncsOK.
+
+Theorem C04_translated_Len : forall (T : Type) (d : deque T), go_Deque_Len d = len d.
+Proof. exact go_Deque_Len_ok. Qed.
+
+Theorem C04_translated_positiveMod : forall l d, go_positiveMod l d = positive_mod l d.
+Proof. exact go_positiveMod_ok. Qed.
+
+Print Assumptions C04_translated_Len.
+Print Assumptions C04_translated_positiveMod.
